@@ -360,7 +360,9 @@ pub fn install_panic_hook() {
 
 /// run f, turning a panic into Err(message)
 pub fn trap<R>(f: impl FnOnce() -> R) -> Result<R, String> {
-    QUIET_PANICS.store(true, Ordering::Relaxed);
+    if !QUIET_PANICS.load(Ordering::Relaxed) {
+        QUIET_PANICS.store(true, Ordering::Relaxed);
+    }
     let r = std::panic::catch_unwind(std::panic::AssertUnwindSafe(f));
     // (left quiet: worker threads run concurrently; harness panics are reported via results)
     r.map_err(|e| {
